@@ -1065,6 +1065,9 @@ class Interp:
                 yield self.sint(it.at(i), 0, 8)
                 i += 1
             return
+        if isinstance(it, self.models.STuple):
+            yield from self.iterate(it.b, frame, node)
+            return
         if isinstance(it, self.models.SRange):
             yield from it.iterate(self)
             return
@@ -1577,7 +1580,47 @@ class Interp:
         return out
 
     def e_GeneratorExp(self, e, frame):
+        r = self._filtered_seq(e, frame)
+        if r is not None:
+            return r
         return self.e_ListComp(e, frame)
+
+    def _filtered_seq(self, e, frame):
+        """`(x for x in seq if cond(x))` over a fixed number of symbolic elements with a pure symbolic
+        filter: kept as FilteredSeq (elements + keep-conditions) instead of 2**n paths."""
+        if len(e.generators) != 1:
+            return None
+        g = e.generators[0]
+        if len(g.ifs) != 1 or not isinstance(g.target, ast.Name) or not isinstance(e.elt, ast.Name) or e.elt.id != g.target.id or g.is_async:
+            return None
+        if not isinstance(g.ifs[0], ast.Compare):
+            return None
+        it = self.eval(g.iter, frame)
+        if isinstance(it, self.models.STuple):
+            it = it.b
+        if isinstance(it, SBytes):
+            if it.fixed_len() is None and self.models.B.fix(self, it).fixed_len() is None:
+                return None
+            items = list(self.iterate(it, frame, e))
+        elif isinstance(it, (tuple, list)) and it and all(isinstance(x, (SInt, int)) for x in it) and any(isinstance(x, SInt) for x in it):
+            items = list(it)
+        else:
+            # not the pattern: fall back (re-evaluates g.iter, which is pure here)
+            return None
+        if len(items) > 64:
+            return None
+        cframe = Frame(frame.globals, frame.qualname, frame.filename, frame.defcls, parent=frame, ms=frame.ms)
+        conds = []
+        for x in items:
+            cframe.locals[g.target.id] = x
+            c = self.eval(g.ifs[0], cframe)
+            if isinstance(c, bool):
+                conds.append(c)
+            elif isinstance(c, SBool):
+                conds.append(c.e)
+            else:
+                return None
+        return self.models.FilteredSeq(items, conds)
 
     def e_SetComp(self, e, frame):
         out = self.e_ListComp(e, frame)
